@@ -356,6 +356,14 @@ impl<T> Matrix<T> {
      * that calls this.
      */
     pub(crate) unsafe fn _get_reference_unchecked(&self, row: Row, column: Column) -> &T {
+        #[cfg(feature = "verif-hooks")]
+        {
+            if !(row < self.rows && column < self.columns)
+                || (self.rows as u128) * (self.columns as u128) != self.data.len() as u128
+            {
+                panic!("EASYML-VERIF-HOOK: matrix unchecked access ({}, {}) size ({}, {}) stored {}", row, column, self.rows, self.columns, self.data.len());
+            }
+        }
         self.data.get_unchecked(self.get_index(row, column))
     }
 
@@ -398,6 +406,14 @@ impl<T> Matrix<T> {
         row: Row,
         column: Column,
     ) -> &mut T {
+        #[cfg(feature = "verif-hooks")]
+        {
+            if !(row < self.rows && column < self.columns)
+                || (self.rows as u128) * (self.columns as u128) != self.data.len() as u128
+            {
+                panic!("EASYML-VERIF-HOOK: matrix unchecked access ({}, {}) size ({}, {}) stored {}", row, column, self.rows, self.columns, self.data.len());
+            }
+        }
         let index = self.get_index(row, column);
         // borrow for get_index ends
         self.data.get_unchecked_mut(index)
